@@ -3255,7 +3255,7 @@ func stateKeyInjective(c *Check, a *Anchors) {
 				continue
 			}
 			call, ok := ast.Unparen(r.Results[0]).(*ast.CallExpr)
-			if !ok || !(isFunc(callee(info, call), "path/filepath", "", "Join") || isFunc(callee(info, call), PkgFilepathext, "", "SmartJoin")) || len(call.Args) < 3 {
+			if !ok || !(isFunc(callee(info, call), "path/filepath", "", "Join") || isFunc(callee(info, call), PkgFilepathext, "", "SmartJoin")) || len(call.Args) < 2 {
 				continue
 			}
 			// a state path: <temp dir>/<kind>/<name> — the first component is the checker's temp dir (a field, or a parameter it
@@ -3268,7 +3268,7 @@ func stateKeyInjective(c *Check, a *Anchors) {
 			if v := varOf(info, first); v != nil && isParamOf(info, fb, v) {
 				isTemp = true
 			}
-			if !isTemp || constText(info, call.Args[1]) == "" {
+			if !isTemp {
 				continue
 			}
 			n++
@@ -3304,7 +3304,23 @@ func stateKeyInjective(c *Check, a *Anchors) {
 				"the state file name is computed from the task name by a lossy normalisation with no digest of the original name: different task names are mapped to the same state file, so a task is reported up to date because of a run of another task")
 		}
 	}
-	c.Floor("state-key-injective", n, 2)
+	c.Floor("state-key-injective", n, 1)
+	// both checkers obtain their state path from such a function
+	users := map[string]bool{}
+	for _, fb := range c.P.BodiesIn(PkgFingerprint) {
+		if fb.Decl == nil || fb.Decl.Recv == nil {
+			continue
+		}
+		for _, call := range callsIn(fb, true) {
+			if fn, ok := callee(fb.Info(), call).(*types.Func); ok && statePathHelper(c, fn) {
+				users[recvOf(fb)] = true
+			}
+		}
+	}
+	paths := len(users)
+	if paths < 2 {
+		c.Errorf("state-key-injective: %d checker type(s) obtain their state path from a judged function, 2 confirmed on the reference tree", paths)
+	}
 }
 
 // globKeepsOtherMatches (C05): the fingerprint covers every file a pattern matches that can be read.
@@ -3586,7 +3602,9 @@ func stateAbsentMeansStale(c *Check, a *Anchors) {
 
 // statePathHelper: a function or method of internal/fingerprint that returns a state-file path — a single string result
 // built with filepath.Join / SmartJoin (directly or through one more helper of the package).
-func statePathHelper(c *Check, fn *types.Func) bool {
+func statePathHelper(c *Check, fn *types.Func) bool { return statePathHelperD(c, fn, 2) }
+
+func statePathHelperD(c *Check, fn *types.Func, depth int) bool {
 	if fn == nil || fn.Pkg() == nil || fn.Pkg().Path() != PkgFingerprint {
 		return false
 	}
@@ -3602,6 +3620,8 @@ func statePathHelper(c *Check, fn *types.Func) bool {
 	for _, call := range callsIn(d, false) {
 		if isFunc(callee(d.Info(), call), "path/filepath", "", "Join") || isFunc(callee(d.Info(), call), PkgFilepathext, "", "SmartJoin") {
 			joins = true
+		} else if hf, ok := callee(d.Info(), call).(*types.Func); ok && depth > 0 && hf != fn && statePathHelperD(c, hf, depth-1) {
+			joins = true // the path is built by a further helper of the package
 		}
 	}
 	return joins
